@@ -264,6 +264,51 @@ def run_two_connections(ctx, case, cuts):
   return mine
 
 
+def run_slow_client(ctx, case, timeout=10.0):
+  """METRIC_CLIENT_IDLE_TIMEOUT configured and a client that sends one line / frame at a time with pauses below the
+  timeout (the stream lasts several timeouts): it is never idle that long, so nothing may be cut off."""
+  from twisted.internet.task import Clock
+  kind = case['listener']
+  label = 'one frame every %.1fs, idle timeout %.0fs' % (timeout * 0.6, timeout)
+  env.reset(METRIC_CLIENT_IDLE_TIMEOUT=timeout)
+  b = env.bootstrap()
+  rec = env.Recorder(b.events.metricReceived)
+  clock = Clock()
+
+  class ClockTime(object):       # the listener module's wall clock follows the virtual clock
+    @staticmethod
+    def time():
+      return 1600000000.0 + clock.seconds()
+  saved_time = b.protocols.time
+  b.protocols.time = ClockTime
+  try:
+    lst = wire.Listener(kind, clock=clock)
+    data = bytes.fromhex(case['stream'])
+    for seg in wire.segments(data, case['bounds']):
+      if not seg:
+        continue
+      clock.advance(timeout * 0.6)
+      if lst.transport.disconnecting:
+        break
+      lst.feed(seg)
+  finally:
+    b.protocols.time = saved_time
+  got = list(rec.items)
+  if lst.escaped:
+    ctx.fail('C01:exception-escaped', '%s [%s]: %r escaped dataReceived' % (kind, label, lst.escaped[0]), case, 'no-exception')
+    return None
+  if lst.transport.disconnecting:
+    ctx.fail('C01:connection-closed', '%s [%s]: the listener closed the connection of a client that was never idle for the '
+             'configured timeout (%d of %d datapoints delivered)' % (kind, label, len(got), len(case['expected'])), case, 'no-disconnect')
+    return None
+  lst.close()
+  for dc in clock.getDelayedCalls():
+    dc.cancel()
+  if not compare(ctx, case, got, label):
+    return None
+  return got
+
+
 def execute(ctx, case):
   kind = case['listener']
   classes = list(case.get('classes', []))
@@ -319,6 +364,10 @@ def execute(ctx, case):
   ctx.evaluations += 1
   if not any(e[0].startswith('neighbour.') or e[0].startswith('previous.') for e in exp):
     if run_two_connections(ctx, case, cuts) is None:
+      return
+    ctx.evaluations += 1
+  if len(case['bounds']) >= 3:
+    if run_slow_client(ctx, case) is None:
       return
     ctx.evaluations += 1
   if len(data) <= 4000:
